@@ -1322,6 +1322,18 @@ impl G {
                 }
             }
         }
+        // the client's own Channel.Close of the victim crossed the server's: the server's
+        // CloseOk arrives for a slot that is gone - and the other channel goes on working
+        if chan_closed && !(self.w.errored || self.w.dead) && self.rng.chance(1, 2) {
+            self.feed_stream(vec![FR::Method(victim, SM::ChanCloseOk)], Term::Block);
+            if let Some(o) = other {
+                if !(self.w.errored || self.w.dead) && self.w.phase() == 0 {
+                    let f = self.random_reply(o);
+                    self.feed(vec![f], Term::Block);
+                    self.recv_some();
+                }
+            }
+        }
         self.w.is_done();
         self.flush_all();
         self.w.is_done();
